@@ -78,6 +78,10 @@ pub struct LinkCfg {
     /// exactly this), seeded per call.
     #[serde(default)]
     pub yield_after_io: bool,
+    /// When an injected fault on this link fires, the opposite direction dies too (the whole
+    /// socket is gone, not just one half).
+    #[serde(default)]
+    pub fault_kills_both: bool,
 }
 
 impl Default for LinkCfg {
@@ -94,6 +98,7 @@ impl Default for LinkCfg {
             err_at: None,
             fail_write_call: None,
             yield_after_io: false,
+            fault_kills_both: false,
         }
     }
 }
@@ -129,6 +134,8 @@ pub struct Link {
     pub name: &'static str,
     world: World,
     pub st: Mutex<LinkState>,
+    /// the opposite direction of the same socket
+    pub other: Mutex<Option<std::sync::Weak<Link>>>,
 }
 
 impl Link {
@@ -136,6 +143,7 @@ impl Link {
         Arc::new(Link {
             name,
             world: world.clone(),
+            other: Mutex::new(None),
             st: Mutex::new(LinkState {
                 cfg,
                 chunks: VecDeque::new(),
@@ -226,6 +234,15 @@ impl Link {
         w.map(|w| w.wake());
     }
 
+    fn kill_other(&self, kind: ErrKind) {
+        let o = self.other.lock().unwrap().as_ref().and_then(|w| w.upgrade());
+        if let Some(o) = o {
+            if !o.is_closed() {
+                o.kill(kind);
+            }
+        }
+    }
+
     pub fn is_closed(&self) -> bool {
         let st = self.st.lock().unwrap();
         st.closed || st.dead.is_some()
@@ -265,15 +282,25 @@ impl Link {
         }
         if let Some((at, k)) = st.cfg.err_at {
             if st.total_read >= at {
+                let both = st.cfg.fault_kills_both;
                 drop(st);
                 self.world.count("fault.io_error_read");
+                self.world.log(|| format!("FAULT {}: read error at offset {at}", self.name));
+                if both {
+                    self.kill_other(ErrKind::Pipe);
+                }
                 return Poll::Ready(Err(k.to_io()));
             }
         }
         if let Some(at) = st.cfg.eof_at {
             if st.total_read >= at {
+                let both = st.cfg.fault_kills_both;
                 drop(st);
                 self.world.count("fault.eof");
+                self.world.log(|| format!("FAULT {}: EOF at offset {at}", self.name));
+                if both {
+                    self.kill_other(ErrKind::Pipe);
+                }
                 return Poll::Ready(Ok((0, vec![])));
             }
         }
@@ -369,9 +396,13 @@ impl Link {
         if let Some((n, k)) = st.cfg.fail_write_call {
             if call >= n {
                 st.write_calls += 1;
+                let both = st.cfg.fault_kills_both;
                 drop(st);
                 self.world.count("fault.io_error_write");
-                self.world.log(|| format!("{}: write call {call} fails", self.name));
+                self.world.log(|| format!("FAULT {}: write call {call} fails", self.name));
+                if both {
+                    self.kill_other(ErrKind::Reset);
+                }
                 return Poll::Ready(Err(k.to_io()));
             }
         }
@@ -662,6 +693,8 @@ impl RawEnd {
 pub fn sim_pair(world: &World, to_zbus: LinkCfg, from_zbus: LinkCfg, sock: SockCfg) -> (SimSocket, RawEnd) {
     let a = Link::new(world, "peer->zbus", to_zbus, false);
     let b = Link::new(world, "zbus->peer", from_zbus, true);
+    *a.other.lock().unwrap() = Some(Arc::downgrade(&b));
+    *b.other.lock().unwrap() = Some(Arc::downgrade(&a));
     (SimSocket { rx: a.clone(), tx: b.clone(), cfg: sock }, RawEnd { rx: b, tx: a })
 }
 
@@ -669,5 +702,7 @@ pub fn sim_pair(world: &World, to_zbus: LinkCfg, from_zbus: LinkCfg, sock: SockC
 pub fn sim_socket_pair(world: &World, ab: LinkCfg, ba: LinkCfg, sa: SockCfg, sb: SockCfg) -> (SimSocket, SimSocket) {
     let l_ab = Link::new(world, "a->b", ab, false);
     let l_ba = Link::new(world, "b->a", ba, false);
+    *l_ab.other.lock().unwrap() = Some(Arc::downgrade(&l_ba));
+    *l_ba.other.lock().unwrap() = Some(Arc::downgrade(&l_ab));
     (SimSocket { rx: l_ba.clone(), tx: l_ab.clone(), cfg: sa }, SimSocket { rx: l_ab, tx: l_ba, cfg: sb })
 }
